@@ -91,7 +91,7 @@ def gen_cases(ck):
     for mode in ("search",):
         for combo in COMBOS:
             cases.append(gen_config(rng, mode, combo))
-    n = 400 if ck.thorough else 70
+    n = 500 if ck.thorough else 170
     for i in range(n):
         cases.append(gen_config(rng, big=(i % 12 == 0)))
     if ck.thorough:
@@ -120,6 +120,8 @@ def classify(model_line):
 
 
 def run_cases(harness, model, cases):
+    if not cases:
+        return [], {}, []
     lines = [case_line(c) for c in cases]
     hout, crashes = pc.run_harness_resilient(harness, lines, timeout=1500)
     ml = []
@@ -216,6 +218,8 @@ def tune_model_line(t, hout):
 
 
 def run_tune(ck, harness, model, tcases):
+    if not tcases:
+        return
     lines = [tune_line(t) for t in tcases]
     hout, crashes = pc.run_harness_resilient(harness, lines, timeout=600)
     ml = []
